@@ -33,13 +33,23 @@ NEEDS = {
  "C15b-nested-imm-incall-context": "the return-value sugar CALL as name as the last step of a > chain (g > f() as r)",
  "C16b-log-before-absent-check": "an unsupplied declared-only variable captured as a non-focus variable by a selector whose event fires after the failed declaration",
  "C18b-falsy-category": "a category that evaluates to a falsy non-tag value (x:0, x:'')",
+ "C01c-wrap-factory-drops-kwdefaults": "a closure with a keyword-only default, instrumented through the tooling decorator (rebuilt function object), called without that keyword",
+ "C02c-loop-targets-sorted": "a tuple loop target whose names are not in alphabetical order, one as focus and another as context",
+ "C04c-children-after-retained": "an older override reaching the binding through a longer call path than a more recently activated one",
+ "C06c-implicit-return-skipped-after-with": "a function ending in a with block whose last statement raises and whose context manager swallows the exception",
+ "C09c-overlay-exit-removes-by-tuple-identity": "an overlay left while the current collection is one derived by a call frame (generator still suspended / interleaved completion)",
+ "C10c-collector-skips-class-body": "a closure variable read only inside the body of a class nested in the probed function",
+ "C12c-hasval-ignores-children": "every value condition sits in a non-outermost call of the selector",
+ "C13c-receiver-matcher-lru-cache": "two distinct instances that compare equal (same hash), the second selected after the first",
+ "C14c-apply-swaps-before-registry": "a method / nested function resolved by reference while a probe is active on it",
+ "C17c-overlay-exit-tail-test": "two probes deactivated oldest-first, a stage attached to the older one afterwards, function still instrumented",
 }
 rows = []
 for d in sorted(os.listdir(os.path.join(ROOT, "seeded"))):
     p = os.path.join(ROOT, "seeded", d)
     if not os.path.isdir(p):
         continue
-    prop = d.split("-")[0].rstrip("b")
+    prop = d.split("-")[0].rstrip("bc")
     subprocess.check_call(["git", "-C", "/repo", "apply", os.path.join(p, "patch.diff")])
     try:
         r = subprocess.run([os.path.join(ROOT, "check"), prop, "quick"], capture_output=True, text=True, cwd=ROOT)
